@@ -231,3 +231,20 @@ def evalhelper(tier: str, prop: str) -> list[dict]:
         dict(d, kind="multidiscrete", dims=[2, 2], S=4, stack=[], episodes=4, cap=6),
         dict(d, kind="discrete", dims=[4], S=6, stack=["TimeLimit", "Identity"], episodes=2, cap=1),
     ]
+
+
+def peers(tier: str, prop: str) -> list[dict]:
+    base = [
+        dict(mode="gym_direct", S=5, A=3),
+        dict(mode="gym_collect_on", S=5, A=2, T=6),
+        dict(mode="gym_collect_off", S=5, A=3, T=3, starts=4),
+        dict(mode="lerax_to_gym", S=5, A=3, stack=["TimeLimit"]),
+        dict(mode="lerax_to_gym", S=4, A=2, stack=[]),
+        dict(mode="lerax_to_gymnax", S=5, A=3, stack=["TimeLimit"]),
+        dict(mode="gymnax_to_lerax", S=0, A=2),
+    ]
+    if prop == "C10":
+        return [b for b in base if b["mode"].startswith("gym_collect")]
+    if prop == "C01":
+        return [b for b in base if b["mode"] in ("gym_direct", "lerax_to_gym")]
+    return base
